@@ -188,12 +188,17 @@ class _SolveIVP(torch.autograd.Function):
             with torch.enable_grad():
                 f, t2, y2, tensor_params2 = pfunc2(t, y, tensor_params)
             allgradinputs = ([y2] + [t2] + list(tensor_params2))
-            allgrads = torch.autograd.grad(f,
-                                           inputs=allgradinputs,
-                                           grad_outputs=dLdy,
-                                           retain_graph=True,
-                                           allow_unused=True,
-                                           create_graph=torch.is_grad_enabled())  # list of (*ny)
+            if f.requires_grad:
+                allgrads = torch.autograd.grad(f,
+                                               inputs=allgradinputs,
+                                               grad_outputs=dLdy,
+                                               retain_graph=True,
+                                               allow_unused=True,
+                                               create_graph=torch.is_grad_enabled())  # list of (*ny)
+            else:
+                # this evaluation depends on none of t, y and the parameters
+                # (e.g. a switched-off branch returning a constant)
+                allgrads = [None for _ in allgradinputs]
             allgrads = convert_none_grads_to_zeros(allgrads, allgradinputs)
             outs = (
                 f,  # dydt
